@@ -13,11 +13,12 @@ import (
 
 // Ctx is what a property check works with.
 type Ctx struct {
-	R    *obl.Report
-	P    *prog.Program
-	Deep bool
-	m    *scanfsm.Machine
-	an   map[string]*scanfsm.Analysis
+	R      *obl.Report
+	P      *prog.Program
+	Deep   bool
+	m      *scanfsm.Machine
+	an     map[string]*scanfsm.Analysis
+	stackF *stackFacts
 }
 
 type propFunc func(c *Ctx)
